@@ -6,8 +6,12 @@
 
    trace lines:
      reset   {case, hdr:{kind:"stream"|"clean", src, prepop, boots:[{ecu,bt,delay,maxts}]}}
-     in      {idx, ecu, boot, ...}                      message handed to the detector (all before the first `out`)
-     out     {idx, ecu, lc, visible, ecu_ok, vis2, intact}   call of the outflow closure; `visible`/`ecu_ok`: lookup of
+     in      {idx, ecu, boot, ix, ...}                  message handed to the detector (all before the first `out`); idx = position
+                                                        in the stream, ix = its index field (may jump: the detector's regular
+                                                        refresh is keyed on it)
+     out     {idx, ecu, lc, visible, ecu_ok, vis2, intact}   call of the outflow closure; idx = position of the (first not yet
+                                                        delivered) input this message equals in everything but `lifecycle`
+                                                        (-1 and intact = FALSE if there is none); `visible`/`ecu_ok`: lookup of
                                                         the id through an evmap read handle AT the call, `vis2`: the
                                                         same lookup by a reader in another thread (synchronous
                                                         hand-shake), `intact`: all fields but `lifecycle` unchanged
